@@ -25,9 +25,10 @@ RULE = ('Two program families: multi-file layout programs whose included files l
         'four pretty-print formats. Non-trivial = at least two include directories or at least three registers / '
         'prefix-sharing mnemonics, and at least two hash seeds compared. Distinct = SHA-1 of the case JSON.')
 ASSUMPTIONS = ['all paths on the command line are absolute and identical across the compared runs, so that listings may '
-               'print them']
+               'print them (one exception: an include directory given by a relative name that begins with a tilde; those '
+               'runs all start in the same directory and differ in HOME)']
 SHARD_MIN = 4
-BUDGET = {'quick': 96, 'thorough': 4000}
+BUDGET = {'quick': 160, 'thorough': 4000}
 LEVEL_TEXT = ('Exploration by re-execution: the only source of run-to-run variation is set/dict iteration order and the '
               'environment, so the same generated input is re-run in fresh interpreters under different hash seeds and '
               'environments and every observable output is compared byte for byte.')
@@ -57,6 +58,29 @@ def _cases(draw, tier):
             n = draw(st.sampled_from([x for x in names if x != 'nop']))
             lines.append(f'{n} {draw(st.integers(0, 255))}')
         return {'kind': 'vocab', 'isa': cfg, 'source': '\n'.join(lines) + '\nnop\n', 'fmt': fmt}
+    if draw(st.integers(0, 5)) == 0:
+        # one operand set holding several alternatives that all read the same operand text: which of them the tool takes
+        # is not the question here - it takes the same one in every run
+        pool = {
+            'num': {'type': 'numeric', 'bytecode': {'value': 1, 'size': 4}, 'argument': {'size': 8, 'byte_align': True}},
+            'rel': {'type': 'relative_address', 'bytecode': {'value': 2, 'size': 4}, 'argument': {'size': 8, 'byte_align': True}},
+            'nbc': {'type': 'numeric_bytecode', 'bytecode': {'size': 4, 'min': 0, 'max': 15}},
+            'nen': {'type': 'numeric_enumeration', 'bytecode': {'size': 4, 'value_dict': {0: 9, 1: 10, 2: 11, 3: 12, 4: 13, 5: 14}}},
+            'adr': {'type': 'address', 'bytecode': {'value': 4, 'size': 4}, 'argument': {'size': 16, 'byte_align': True}},
+            'num2': {'type': 'numeric', 'bytecode': {'value': 6, 'size': 4}, 'argument': {'size': 16, 'byte_align': True}},
+            'enm': {'type': 'enumeration', 'bytecode': {'size': 4, 'value_dict': {'k1': 7, 'k2': 8}},
+                    'argument': {'size': 8, 'byte_align': True, 'value_dict': {'k1': 1, 'k2': 2}}},
+        }
+        names = list(draw(st.permutations(sorted(pool))))[:draw(st.integers(2, 4))]
+        cfg = {'general': {'address_size': 16, 'endian': draw(st.sampled_from(['big', 'little'])), 'registers': ['a', 'hl', 'x']},
+               'operand_sets': {'amb': {'operand_values': {n: pool[n] for n in names}}},
+               'instructions': {'op': {'bytecode': {'value': 10, 'size': 4}, 'operands': {'count': 1, 'operand_sets': {'list': ['amb']}}},
+                                'nop': {'bytecode': {'value': 0, 'size': 8}}}}
+        lines = ['k1 = 1', 'k2 = 2', '.org $10']
+        for _ in range(draw(st.integers(1, 4))):
+            lines.append('op ' + draw(st.sampled_from(['0', '1', '2', '3', '4', '5', 'k1', 'k2'] + ([] if 'nen' in names else ['here', '$12']))))
+        lines += ['here:', 'nop']
+        return {'kind': 'vocab', 'isa': cfg, 'source': '\n'.join(lines) + '\n', 'fmt': fmt, 'ambiguous_alternatives': names}
     if draw(st.integers(0, 2)) == 0:
         # single statement under a fully generated ISA
         from . import c01
@@ -76,12 +100,19 @@ def _cases(draw, tier):
     for it in G.flatten(b.items):
         if it['t'] == 'include':
             dirs[it['file']] = draw(st.sampled_from(['src', 'inc_a', 'inc_b', 'inc_a']))
-    twist = draw(st.sampled_from([None, None, 'symlink', 'symlink', 'ambiguous', 'ambiguous-identical', 'missing', 'repeated-D']))
+    twist = draw(st.sampled_from([None, None, 'symlink', 'symlink', 'ambiguous', 'ambiguous-identical', 'missing', 'repeated-D', 'tilde', 'tilde']))
     if twist == 'repeated-D':
         # one symbol defined by the ISA and twice more, differently, on the command line: whatever the tool makes of it,
         # it makes the same of it in every run
         cfg.setdefault('predefined', {}).setdefault('symbols', []).append({'name': 'SYMQ', 'value': '7'})
         b.items.append({'t': 'raw', 'text': '.byte SYMQ'})
+    if twist == 'tilde':
+        # an include directory whose (relative) name begins with a tilde is a directory like any other: what the home
+        # directory of the day is changes nothing
+        if not dirs:
+            b.items.append({'t': 'include', 'file': 'extra.asm', 'items': [{'t': 'comment', 'text': 'nothing here'}]})
+            dirs['extra.asm'] = 'inc_a'
+        dirs = {k: 'inc_a' for k in dirs}
     if twist == 'symlink':
         # the include directory is reachable under two names: make sure something is included from it, and look
         # at the format that prints file names
@@ -146,6 +177,14 @@ def execute(case, ctx):
         if case['twist'] == 'missing' and incs:
             del files[incs[0]]
         idirs = list(case['iorder'])
+        if case['twist'] == 'tilde':
+            # inc_a lives in a directory literally called "~"; the other home directory holds files of the same names
+            for p in incs:
+                if p.startswith('inc_a/'):
+                    files['~/' + p] = files.pop(p)
+                    files['elsewhere/' + p] = '.byte 9\n'
+            incs = sorted(('~/' + p if p.startswith('inc_a/') else p) for p in incs)
+            idirs = ['~/inc_a' if d == 'inc_a' else d for d in idirs]
         rich = len({p.split('/')[0] for p in incs}) >= 2 or len(idirs) >= 2
     root = tempfile.mkdtemp(prefix='bvf-c15-', dir=runner.scratch_root())
     try:
@@ -162,7 +201,13 @@ def execute(case, ctx):
             # the main file's own directory named as an include directory too, in the middle or at the end
             variants.append(('own-dir-I-mid', {'PYTHONHASHSEED': '1'}, idirs[:1] + ['src'] + idirs[1:], root))
             variants.append(('own-dir-I-last', {'PYTHONHASHSEED': '0'}, list(reversed(idirs)) + ['src'], root))
-        variants.append(('cwd', {'PYTHONHASHSEED': '2'}, idirs, os.path.join(root, 'elsewhere')))
+        if case.get('twist') == 'tilde':
+            # the tilde name is relative: every run starts in the same directory, the home directory differs
+            variants = [(n, dict(e, HOME=os.path.join(root, 'src')), o, c) for n, e, o, c in variants]
+            variants.append(('home', {'PYTHONHASHSEED': '2', 'HOME': os.path.join(root, 'elsewhere')}, idirs, root))
+            variants.append(('home-nowhere', {'PYTHONHASHSEED': '2', 'HOME': '/nonexistent'}, idirs, root))
+        else:
+            variants.append(('cwd', {'PYTHONHASHSEED': '2'}, idirs, os.path.join(root, 'elsewhere')))
         variants.append(('env', {'PYTHONHASHSEED': '3', 'LANG': 'tr_TR.UTF-8', 'LC_ALL': 'C', 'TZ': 'Pacific/Kiritimati',
                                  'ZZZ_EXTRA': 'x', 'COLUMNS': '20', 'PYTHONUTF8': '0'}, idirs, root))
         results = []
@@ -175,7 +220,7 @@ def execute(case, ctx):
             if case.get('twist') == 'repeated-D':
                 argv += ['-D', 'SYMQ=13', '-D', 'SYMQ=26']
             for d in order:
-                argv += ['-I', os.path.join(root, d)]
+                argv += ['-I', d if d.startswith('~') else os.path.join(root, d)]
             argv.append(os.path.join(root, 'src/main.asm'))
             e = {k: v for k, v in os.environ.items() if not k.startswith('BESPOKEASM')}
             e.update({'PYTHONPATH': runner.REPO_SRC, 'PYTHONDONTWRITEBYTECODE': '1'})
@@ -215,6 +260,7 @@ def execute(case, ctx):
             break
     klass = 'accepted' if base[1] == 0 else 'rejected'
     classes = ['kind:' + case['kind'], 'fmt:' + case['fmt'], 'outcome:' + klass] + \
+              (['same-text-alternatives:' + klass] if case.get('ambiguous_alternatives') else []) + \
               (['twist:' + str(case.get('twist'))] if case['kind'] == 'prog' else [])
     return Outcome(findings, rich, classes, len(results),
                    sample={'sources': {k: v for k, v in files.items() if k.endswith('.asm')}, 'format': case['fmt'],
